@@ -29,6 +29,9 @@ TABLE = {
     r".": ["a", "Z", "#"],
 }
 
+# delimiter that no match of the pattern can contain / end in ambiguity with (default "\x7f")
+DELIM = {r"[^,;]+": ","}
+
 BYTES_TABLE = {
     r"[\x00-\x03]": ["\x00", "\x03"],
     r"[\x80-\xff]": ["\x80", "\xff"],
@@ -36,6 +39,13 @@ BYTES_TABLE = {
     r"[\x00-\xff]{2}": ["\x00\x01", "\xfe\xff"],
     r"\x01[\x00-\x0f]*": ["\x01", "\x01\x05\x0a"],
 }
+
+for _p in TABLE:
+    _d = DELIM.get(_p, "\x7f")
+    # variable-length patterns must not be able to match their delimiter
+    if _p not in (r".",) and not re.fullmatch(r".*\{\d+\}", _p):
+        for _s in TABLE[_p]:
+            assert re.fullmatch(_p, _s + _d) is None, (_p, _d)
 
 for _t in (TABLE, BYTES_TABLE):
     for _p, _ss in _t.items():
